@@ -30,4 +30,7 @@ LawDevScope ==
   /\ Denote(Fmt(a), {"tcp_host_no_decode"}) # Denote(Fmt(a), {}) => a.transport = "tcp" /\ PctEncode(a.host) # a.host
   /\ Denote(Fmt(a), {"tcp_bind_rejected"}) # Denote(Fmt(a), {}) => Has(a, "bind")
 LawNorm == NormAddr(a) = a
+(* constant laws: evaluated once at start-up *)
+ASSUME LawPct
+ASSUME LawPctErr
 =============================================================================
